@@ -49,20 +49,95 @@ def run_cvc5(smt2_text, timeout_s, want_model=False):
             pass
 
 
+def _has_quant(t, depth=0):
+    if z3.is_quantifier(t):
+        return True
+    if depth > 40:
+        return True
+    if z3.is_app(t):
+        return any(_has_quant(c, depth + 1) for c in t.children())
+    return False
+
+
+def _collect_apps(t, name, acc, seen):
+    i = t.get_id()
+    if i in seen:
+        return
+    seen.add(i)
+    if z3.is_quantifier(t):
+        return          # applications under binders mention bound variables: skipped
+    if z3.is_app(t):
+        if t.decl().name() == name:
+            acc[i] = t
+        for c in t.children():
+            _collect_apps(c, name, acc, seen)
+
+
+def join_congruence(hyps, goal):
+    """T-LIB: str.join depends only on the separator and the first n elements (ground instances)"""
+    acc, seen = {}, set()
+    for h in list(hyps) + ([goal] if goal is not None else []):
+        _collect_apps(h, 'py_join', acc, seen)
+    apps = list(acc.values())
+    out = []
+    for a in range(len(apps)):
+        for b in range(a + 1, len(apps)):
+            x, y = apps[a], apps[b]
+            sa, ea, na = x.children()
+            sb, eb, nb = y.children()
+            if ea.sort() != eb.sort():
+                continue
+            j = z3.Int('jc!%d_%d' % (a, b))
+            same = z3.ForAll([j], z3.Implies(z3.And(0 <= j, j < na), z3.Select(ea, j) == z3.Select(eb, j)))
+            out.append(z3.Implies(z3.And(sa == sb, na == nb, same), x == y))
+    return out
+
+
 def _solve_one(args):
     idx, timeout_ms, use_cvc5 = args
     o = _OBS[idx]
     t0 = time.time()
     res = {'idx': idx, 'verdict': None, 'backend': 'z3', 'ms': 0, 'model': None, 'reason': '', 'watch': {}}
     try:
-        s = z3.Solver()
-        s.set('timeout', timeout_ms)
-        for h in o.hyps:
-            s.add(h)
-        if o.kind == 'check':
+        if o.kind == 'check' and not getattr(o, '_cong', False):
+            extra = join_congruence(o.hyps, o.goal)
+            o.hyps = list(o.hyps) + extra
+            o._cong = True
+        r = z3.unknown
+        if o.kind == 'check' and any(_has_quant(h) for h in o.hyps + [o.goal]):
+            # portfolio step 1: pure E-matching (no model-based instantiation); only `unsat` is taken from it
+            s = z3.Solver()
+            s.set('auto_config', False)
+            s.set('smt.mbqi', False)
+            s.set('timeout', max(1000, min(4000, timeout_ms // 4)))
+            for h in o.hyps:
+                s.add(h)
             s.add(z3.Not(o.goal))
-        r = s.check()
-        if r == z3.unknown and use_cvc5:
+            if s.check() == z3.unsat:
+                r = z3.unsat
+                res['backend'] = 'z3(ematch)'
+        if o.kind == 'cover' and any(_has_quant(h) for h in o.hyps):
+            # quantified hypotheses make `sat` hard to show: decide the quantifier-free part
+            # (unsat there => vacuous for sure; sat there => accepted as covered, labelled)
+            s = z3.Solver()
+            s.set('timeout', timeout_ms)
+            for h in o.hyps:
+                if not _has_quant(h):
+                    s.add(h)
+            r2 = s.check()
+            res['backend'] = 'z3(qf-part)'
+            res['verdict'] = {z3.sat: 'covered', z3.unsat: 'vacuous'}.get(r2, 'undecided')
+            res['ms'] = int((time.time() - t0) * 1000)
+            return res
+        if r == z3.unknown:
+            s = z3.Solver()
+            s.set('timeout', timeout_ms)
+            for h in o.hyps:
+                s.add(h)
+            if o.kind == 'check':
+                s.add(z3.Not(o.goal))
+            r = s.check()
+        if r == z3.unknown and use_cvc5 and o.kind == 'check':
             txt = _smt2(o.hyps, z3.Not(o.goal) if o.kind == 'check' else None)
             cr, why = run_cvc5(txt, max(2.0, timeout_ms / 1000.0))
             res['backend'] = 'cvc5'
@@ -106,18 +181,78 @@ def _solve_one(args):
     return res
 
 
+def _child(conn, job):
+    try:
+        import resource
+        lim = int(os.environ.get('PYVC_MEM_MB', '6000')) * 1024 * 1024
+        try:
+            resource.setrlimit(resource.RLIMIT_AS, (lim, lim))
+        except Exception:
+            pass
+        z3.set_param('memory_max_size', int(os.environ.get('PYVC_MEM_MB', '6000')))
+        r = _solve_one(job)
+    except MemoryError:
+        r = {'idx': job[0], 'verdict': 'undecided', 'backend': 'z3', 'ms': 0, 'model': None,
+             'reason': 'solver memory limit', 'watch': {}}
+    except BaseException as ex:   # noqa
+        r = {'idx': job[0], 'verdict': 'undecided', 'backend': 'z3', 'ms': 0, 'model': None,
+             'reason': 'solver process error: %r' % (ex,), 'watch': {}}
+    try:
+        conn.send(r)
+    except Exception:
+        pass
+    conn.close()
+    os._exit(0)
+
+
 def discharge(obligations, timeout_ms=10000, workers=None, use_cvc5=True):
+    """one forked process per obligation, at most `workers` at a time, each under a hard wall-clock
+    and memory limit (a runaway solver is killed and the obligation is *undecided*)"""
     global _OBS
     _OBS = obligations
     workers = workers or min(14, max(1, (os.cpu_count() or 2) - 2))
     jobs = [(i, timeout_ms, use_cvc5) for i in range(len(obligations))]
+    hard_s = 3.0 * timeout_ms / 1000.0 + 20.0
     t0 = time.time()
-    if len(jobs) <= 2 or workers == 1:
-        results = [_solve_one(j) for j in jobs]
-    else:
-        ctx = multiprocessing.get_context('fork')
-        with ctx.Pool(processes=min(workers, len(jobs))) as pool:
-            results = list(pool.imap_unordered(_solve_one, jobs, chunksize=1))
+    ctx = multiprocessing.get_context('fork')
+    pending = list(reversed(jobs))
+    running = {}     # idx -> (proc, conn, start)
+    results = []
+    while pending or running:
+        while pending and len(running) < workers:
+            job = pending.pop()
+            pc, cc = ctx.Pipe(duplex=False)
+            p = ctx.Process(target=_child, args=(cc, job))
+            p.start()
+            cc.close()
+            running[job[0]] = (p, pc, time.time())
+        done = []
+        for idx, (p, pc, st) in running.items():
+            if pc.poll(0):
+                try:
+                    results.append(pc.recv())
+                except EOFError:
+                    results.append({'idx': idx, 'verdict': 'undecided', 'backend': 'z3', 'ms': int((time.time() - st) * 1000),
+                                    'model': None, 'reason': 'solver process died (memory limit?)', 'watch': {}})
+                done.append(idx)
+            elif not p.is_alive():
+                results.append({'idx': idx, 'verdict': 'undecided', 'backend': 'z3', 'ms': int((time.time() - st) * 1000),
+                                'model': None, 'reason': 'solver process died (memory limit?)', 'watch': {}})
+                done.append(idx)
+            elif time.time() - st > hard_s:
+                p.kill()
+                results.append({'idx': idx, 'verdict': 'undecided', 'backend': 'z3', 'ms': int((time.time() - st) * 1000),
+                                'model': None, 'reason': 'hard time limit (%.0fs): solver killed' % hard_s, 'watch': {}})
+                done.append(idx)
+        for idx in done:
+            p, pc, st = running.pop(idx)
+            try:
+                pc.close()
+            except Exception:
+                pass
+            p.join(timeout=1)
+        if not done:
+            time.sleep(0.01)
     for r in results:
         o = obligations[r['idx']]
         o.verdict = r['verdict']
